@@ -37,6 +37,30 @@ impl<D: StorageData> StorageData for Failing<D> {
     fn write(&mut self, pos: u64, bytes: &[u8]) -> Result<(), DbError> { maybe_fail()?; self.0.write(pos, bytes) }
 }
 
+// ---- watchdog: a run (one injected failure + the later queries + reopen) that does not return ----
+// After an injected failure the in-memory tables can be inconsistent (known finding of C32); a later query may then
+// loop forever (e.g. GraphImpl::remove_to_edge on a cyclic sibling list).  The hanging query cannot be interrupted:
+// the monitor appends `fail-later-hang <run description>` to oracle_live.txt and exits the process with code 3;
+// the driver (checks/c32.py) restarts the harness after the current history.
+static RUN_WATCH: std::sync::Mutex<Option<(std::time::Instant, String)>> = std::sync::Mutex::new(None);
+
+pub fn start_watchdog(live_path: String, ms: u64) {
+    std::thread::spawn(move || loop {
+        std::thread::sleep(std::time::Duration::from_millis(200));
+        let w = RUN_WATCH.lock().unwrap();
+        if let Some((t, desc)) = w.as_ref() {
+            if t.elapsed() > std::time::Duration::from_millis(ms) {
+                use std::io::Write;
+                if let Ok(mut f) = std::fs::OpenOptions::new().create(true).append(true).open(&live_path) {
+                    let _ = writeln!(f, "fail-later-hang (a query after the injected failure did not return within {} ms) {}", ms, desc);
+                    let _ = f.flush();
+                }
+                std::process::exit(3);
+            }
+        }
+    });
+}
+
 pub struct Out { pub live: Option<std::fs::File>, pub oracle: Vec<String>, pub stats: BTreeMap<String, u64>, pub samples: Vec<String>, pub nontrivial: u64, pub runs: u64 }
 impl Out {
     pub fn fail(&mut self, l: String) {
@@ -59,6 +83,10 @@ fn run_once(path: &str, steps: &[Step], target: usize, k: Option<u64>, mapped: b
         use std::io::Write;
         if let Some(f) = out.live.as_mut() { let _ = writeln!(f, "#RUN k={:?} {}", k, desc); let _ = f.flush(); }
     }
+    *RUN_WATCH.lock().unwrap() = Some((std::time::Instant::now(), format!("k={:?} {}", k, desc)));
+    struct Disarm;
+    impl Drop for Disarm { fn drop(&mut self) { *RUN_WATCH.lock().unwrap() = None; } }
+    let _disarm = Disarm;
     let mut calls_in_target = 0;
     let r = std::panic::catch_unwind(std::panic::AssertUnwindSafe(|| -> Result<String, DbError> {
         macro_rules! go { ($db:expr) => {{
